@@ -16,6 +16,7 @@ EXPLANATION = (
     "sufficient condition for row-wise independence. (b) KernelRIM computes its kernel against the stored training data in "
     "fit and in predict_proba through the same function, whose second argument is self.input_data_ on every branch. (c) "
     "_infer's value does not depend on `retain`, and labels_ / predict are the arg-max over the cluster axis of that one function.")
+ADOPT = [("C08", ["C08-f"], "Kauri's labels_ are computed from the matrices Y, Z while predict walks the recorded tree: they agree only if every split is applied to Y and Z exactly as it was recorded")]
 ASSUMPTIONS = ["numpy shape semantics of gcverif/e3_numpy.py; sklearn softmax is row-wise", "pairwise_kernels(X, Y) is computed row by row of X"]
 BAD = ("reduce", "positional", "pairing", "argreduce")
 
